@@ -169,6 +169,8 @@ class Ctx:
             # lives in (a write far outside its buffer): that is an observation about the code under test, reported as a violation with the
             # sanitizer's first report, not as a broken check.  Time-outs (124) and ordinary failures stay broken checks.
             died = p.returncode == 70 or p.returncode < 0 or p.returncode in (128 + 6, 128 + 11, 128 + 7, 128 + 4, 128 + 8)
+            # (the sanitizer run-time gives up by itself when a second memory error strikes while it reports the first: the heap it lives in is gone)
+            died = died or "AddressSanitizer: nested bug in the same thread, aborting" in p.stderr or "AddressSanitizer: CHECK failed" in p.stderr
             if died:
                 m = re.search(r"ERROR: AddressSanitizer: ([^\n]*)", p.stderr)
                 first = m.group(1)[:200] if m else "no sanitizer report"
